@@ -364,7 +364,9 @@ func (s *Service) servesRootPath() bool {
 }
 
 func (s *Service) createCertManager(options ServiceOptions) (CertManager, error) {
-	if !options.TLSEnabled {
+	// Only the service on the root path manages certificates: services on other
+	// paths merely inherit the TLS settings of their host's root service.
+	if !options.TLSEnabled || !slices.Contains(options.PathPrefixes, rootPath) {
 		return nil, nil
 	}
 
